@@ -161,3 +161,26 @@ mutant("c13-display-join-single-bar", ["C13"], (R, "            if i > 0 {\n    
 mutant("c13-display-exact-as-range", ["C13"], (R, "            (Lower(Including(v)), Upper(Including(v2))) if v == v2 => write!(f, \"{}\", v),", "            (Lower(Including(v)), Upper(Including(v2))) if v == v2 => write!(f, \"~{}\", v),"))
 mutant("c15-intersect-swaps-sides", ["C15", "C07"], (R, "        let upper: &Bound = std::cmp::min(&self.upper, &other.upper);", "        let upper: &Bound = std::cmp::min(&self.upper, &self.upper);"))
 neutral("display-write-str", ["C13"], (R, "            (Lower(Unbounded), Upper(Unbounded)) => write!(f, \"*\"),", "            (Lower(Unbounded), Upper(Unbounded)) => f.write_str(\"*\"),"))
+
+# ---- representation refactors (must stay silent)
+neutral("boundset-unboxed", ["C07", "C08", "C09", "C03", "C01", "C11", "C13"],
+        (R, "struct BoundSet {\n    upper: Box<Bound>,\n    lower: Box<Bound>,\n}", "struct BoundSet {\n    upper: Bound,\n    lower: Bound,\n}"),
+        (R, "            (Lower(Including(v1)), Upper(Including(v2))) if v1 == v2 => Some(Self {\n                lower: Box::new(Lower(Including(v1))),\n                upper: Box::new(Upper(Including(v2))),\n            }),\n            (lower, upper) if lower < upper => Some(Self {\n                lower: Box::new(lower),\n                upper: Box::new(upper),\n            }),",
+            "            (Lower(Including(v1)), Upper(Including(v2))) if v1 == v2 => Some(Self {\n                lower: Lower(Including(v1)),\n                upper: Upper(Including(v2)),\n            }),\n            (lower, upper) if lower < upper => Some(Self {\n                lower,\n                upper,\n            }),"),
+        (R, "        let lower_bound = match &self.lower.as_ref() {", "        let lower_bound = match &&self.lower {"),
+        (R, "        let upper_bound = match &self.upper.as_ref() {", "        let upper_bound = match &&self.upper {"),
+        (R, "            let lower_version = match &self.lower.as_ref() {", "            let lower_version = match &&self.lower {"),
+        (R, "            let upper_version = match &self.upper.as_ref() {", "            let upper_version = match &&self.upper {"),
+        (R, "        let candidates = match self.lower.as_ref() {", "        let candidates = match &self.lower {"),
+        (R, "                    BoundSet::new(*self.lower.clone(), Upper(overlap.lower.predicate().flip()))\n                        .unwrap(),\n                    BoundSet::new(Lower(overlap.upper.predicate().flip()), *self.upper.clone())\n                        .unwrap(),",
+            "                    BoundSet::new(self.lower.clone(), Upper(overlap.lower.predicate().flip()))\n                        .unwrap(),\n                    BoundSet::new(Lower(overlap.upper.predicate().flip()), self.upper.clone())\n                        .unwrap(),"),
+        (R, "                return BoundSet::new(*self.lower.clone(), Upper(overlap.lower.predicate().flip()))\n                    .map(|f| vec![f]);", "                return BoundSet::new(self.lower.clone(), Upper(overlap.lower.predicate().flip()))\n                    .map(|f| vec![f]);"),
+        (R, "            BoundSet::new(Lower(overlap.upper.predicate().flip()), *self.upper.clone())\n                .map(|f| vec![f])", "            BoundSet::new(Lower(overlap.upper.predicate().flip()), self.upper.clone())\n                .map(|f| vec![f])"),
+        (R, "        match (&self.lower.as_ref(), &self.upper.as_ref()) {", "        match (&&self.lower, &&self.upper) {"))
+
+# ---- C01 token level
+mutant("c01-no-blank-after-operator", ["C01"], (R, "        (operation, preceded(space0, partial_version)),", "        (operation, partial_version),"))
+mutant("c01-capital-x-lost", ["C01"], (R, "alt((literal(\"x\"), literal(\"X\"), literal(\"*\")))", "alt((literal(\"x\"), literal(\"*\")))"))
+mutant("c01-hyphen-single-blank", ["C01"], (R, "        let _ = space1(input)?;\n        let _ = literal(\"-\").parse_next(input)?;\n        let _ = space1(input)?;", "        let _ = literal(\" \").parse_next(input)?;\n        let _ = literal(\"-\").parse_next(input)?;\n        let _ = literal(\" \").parse_next(input)?;"))
+mutant("c01-caret-no-blank", ["C01"], (R, "        preceded((literal(\"^\"), space0), partial_version),", "        preceded(literal(\"^\"), partial_version),"))
+mutant("c01-peek-drops-bar", ["C01"], (R, "        terminated(primitive, peek(alt((space1, literal(\"||\"), eof)))),", "        terminated(primitive, peek(alt((space1, eof)))),"))
